@@ -296,6 +296,7 @@ def menu(name: str, **kw: Any) -> Scenario:
         "G4": ("leaves..tutorial_get", "net1 net2"),
         "G4f": ("leaves..tutorial_finale", "net1 net2"),
         "G4fx3": ("leaves..tutorial_finale", "net1 net2 net4"),
+        "G4i": ("leaves..tutorial_get..explicit_noop,leaves..tutorial_get..implicit_both", "net1 net2"),
         "G5": ("normal..tutorial1", "net1 net5"),
         "G5b": ("normal..tutorial3", "net3 net5"),
         "G6": ("leaves..tutorial_gui", "cluster1.net6 cluster1.net7 cluster2.net6"),
